@@ -1623,11 +1623,11 @@ func (h *Handler) getCodeActionsForDiagnostic(uri string, diag Diagnostic) []Cod
 		content, ok := h.server.Documents().GetContent(uri)
 		if ok {
 			lines := strings.Split(content, "\n")
-			if diag.Range.Start.Line < len(lines) {
+			if diag.Range.Start.Line >= 0 && diag.Range.Start.Line < len(lines) {
 				line := lines[diag.Range.Start.Line]
 				start := diag.Range.Start.Character
 				end := diag.Range.End.Character
-				if start < len(line) && end <= len(line) && start < end {
+				if start >= 0 && start < len(line) && end <= len(line) && start < end {
 					word := line[start:end]
 					upper := strings.ToUpper(word)
 					if word != upper {
